@@ -98,12 +98,30 @@ def expr(cx, n):
         if h is None: raise Unsupported(f"call of {cn}")
         body = next(c for c in h["inner"] if c.get("kind") == "CompoundStmt").get("inner", [])
         params = [p for p in h.get("inner", []) if p.get("kind") == "ParmVarDecl"]
-        if len(body) != 1 or body[0].get("kind") != "ReturnStmt" or len(params) != len(n["inner"]) - 1:
-            raise Unsupported(f"call of {cn}, which is more than one return")
+        if len(params) != len(n["inner"]) - 1:
+            raise Unsupported(f"call of {cn} with another number of arguments")
         sub = dict(cx.subst)
         for p_, a_ in zip(params, n["inner"][1:]):
             sub[p_["name"]] = expr(cx, a_)
-        return expr(Ctx(cx.enums, cx.locals, cx.params, cx.funcs, sub), body[0]["inner"][0])
+        c3 = Ctx(cx.enums, cx.locals, cx.params, cx.funcs, sub)
+        def value_of(stmts_):
+            # `if (c) return a; ... return b;` as a conditional expression
+            if not stmts_: raise Unsupported(f"call of {cn}: a path without return")
+            h0, rest0 = stmts_[0], stmts_[1:]
+            if h0.get("kind") == "ReturnStmt": return expr(c3, h0["inner"][0])
+            if h0.get("kind") == "CompoundStmt": return value_of(h0.get("inner", []) + rest0)
+            if h0.get("kind") == "IfStmt":
+                tc, kc = expr(c3, h0["inner"][0])
+                th_ = h0["inner"][1]; th_l = th_.get("inner", []) if th_.get("kind") == "CompoundStmt" else [th_]
+                el_l = []
+                if h0.get("hasElse"):
+                    el_ = h0["inner"][2]; el_l = el_.get("inner", []) if el_.get("kind") == "CompoundStmt" else [el_]
+                ta, ka = value_of(th_l + rest0); tb, kb = value_of(el_l + rest0)
+                if ka != kb:
+                    ta, tb, ka = (as_bool(ta, ka), as_bool(tb, kb), "bool") if "bool" in (ka, kb) else (as_int(ta, ka), as_int(tb, kb), "int")
+                return f"(if {as_bool(tc, kc)} then {ta} else {tb})", ka
+            raise Unsupported(f"call of {cn}, whose body is more than returns and ifs")
+        return value_of(body)
     raise Unsupported(f"expression {k} {n.get('opcode', '')}")
 
 
